@@ -546,7 +546,7 @@ def convert_var_to_effective_lindbladian(
     reshaped = var.reshape(size)
 
     hs = (
-        np.insert(reshaped, 0, np.eye(1, dim ** 2), axis=0)
+        np.insert(reshaped, 0, np.zeros((1, dim ** 2)), axis=0)
         if on_para_eq_constraint
         else reshaped
     )
